@@ -100,6 +100,16 @@ def leaf_traces(tid0, rng, criterion, count):
     md = rng.choice([1, 2, 3])
     msl = rng.choice([1, 2, 3, 5])
     model = PiecewiseTreeRegressor(criterion=criterion, max_depth=md, min_samples_leaf=msl)
+    prior = rng.random() < 0.4
+    if prior:
+        # an earlier life of the instance with the OTHER criterion, another depth and other rows
+        model.set_params(criterion="simple" if criterion == "mselin" else "mselin", max_depth=rng.choice([1, 2, 4]))
+        try:
+            model.fit(X[::-1][: max(4, n // 2)] + unit, y[: max(4, n // 2)][::-1] * 2)
+            model.predict(X[:3])
+        except Exception:
+            pass
+        model.set_params(criterion=criterion, max_depth=md)
     model.fit(X, y)
     train_leaf = model.apply(X)
     probes = [rng.choice(xs) for _ in range(count - 2)] + [-1, 14]
@@ -112,7 +122,7 @@ def leaf_traces(tid0, rng, criterion, count):
         out.append(dict(id=tid0 + q, kind="leaf", ckind="const", Y=[0], W=[1], X=[0],
                         lx=[xs[k] for k in rows], ly=[ys[k] for k in rows], msl=msl, max_depth=md, criterion=criterion,
                         ev=[dict(a="leaf", x=int(x), depth=depth, **proj(pred[q]))],
-                        site="mlmodel.PiecewiseTreeRegressor(criterion=%r)" % criterion, sig="predict unit=%g" % unit))
+                        site="mlmodel.PiecewiseTreeRegressor(criterion=%r)" % criterion, sig="predict unit=%g%s" % (unit, " refit" if prior else "")))
     return out, (model.criterion == criterion)
 
 
